@@ -168,11 +168,13 @@ func Build(c *Case, rs *runState) *res.Service {
 	for hi, hs := range c.Handlers {
 		hi, hs := hi, hs
 		var opts []res.Option
-		switch hs.Type {
-		case "model":
-			opts = append(opts, res.Model)
-		case "collection":
-			opts = append(opts, res.Collection)
+		if !hs.Get { // with a get handler the typed helpers GetModel / GetCollection set the type
+			switch hs.Type {
+			case "model":
+				opts = append(opts, res.Model)
+			case "collection":
+				opts = append(opts, res.Collection)
+			}
 		}
 		run := func(kind, method string, req interface{}) {
 			r := req.(*res.Request)
@@ -194,7 +196,7 @@ func Build(c *Case, rs *runState) *res.Service {
 			opts = append(opts, res.Access(func(r res.AccessRequest) { run("access", "", r) }))
 		}
 		if hs.Get {
-			opts = append(opts, res.GetResource(func(r res.GetRequest) {
+			getFn := func(r res.GetRequest) {
 				if r.ForValue() {
 					i := rs.lookup("", "", "")
 					rs.record(i, Record{Marker: Marker(hi, "get", ""), RName: r.ResourceName(), ForValue: true, PathParams: r.PathParams(), Query: r.Query()})
@@ -237,10 +239,23 @@ func Build(c *Case, rs *runState) *res.Service {
 					return
 				}
 				run("get", "", r)
-			}))
+			}
+			switch hs.Type {
+			case "model":
+				// the typed option helpers (they also set the resource type)
+				opts = append(opts, res.GetModel(func(r res.ModelRequest) { getFn(r.(res.GetRequest)) }))
+			case "collection":
+				opts = append(opts, res.GetCollection(func(r res.CollectionRequest) { getFn(r.(res.GetRequest)) }))
+			default:
+				opts = append(opts, res.GetResource(getFn))
+			}
 		}
 		for _, m := range hs.Calls {
 			m := m
+			if m == "set" {
+				opts = append(opts, res.Set(func(r res.CallRequest) { run("call", m, r) }))
+				continue
+			}
 			opts = append(opts, res.Call(m, func(r res.CallRequest) { run("call", m, r) }))
 		}
 		if hs.New {
